@@ -37,7 +37,8 @@ TECHNIQUE = (
 RULE = (
     "(A) every combination of layout (0-2 leading blank lines x LF/CRLF x {no text, one line, three lines, text ending "
     "in a backslash continuation} x {column 1, indented 4, after 3 characters of text}) x planted fault construct x "
-    "tail x construction path {string, file, lookup, lookup+module_directory}; (B) every ordered forest of template "
+    "tail x construction path {string, file, lookup, lookup+module_directory} and, for a stated subset, the nested routes "
+    "{include, inherit, namespace file=, include inside a def} x {memory, module_directory} from a healthy rendering template; (B) every ordered forest of template "
     "nodes up to the weight bound x every node boundary x every applicable fault construct (string path). Canonical "
     "case = (document text, path), de-duplicated. Non-trivial = the expected location differs from line 1 column 1, "
     "i.e. something precedes the fault or the faulty Python line is not the construct's first line."
@@ -55,8 +56,8 @@ BOUNDS = {
     "quick": {
         "layouts": "72 + 21 with a line-break look-alike (FF VT FS NEL LS PS lone-CR) in the preceding text",
         "tails": "2 (blank-region variants behind the 72 plain layouts: without tail only)",
-        "paths": 4,
-        "html_error_template": "string path, LF documents without tail; look-alike layouts without tail: string path, and file path for the LF column-1 ones; blank-region variants only there",
+        "paths": "4 direct + 8 nested (include / inherit / namespace file= / include inside a def from a rendering template, in memory and with module_directory) for LF column-1 plain-layout documents without tail",
+        "html_error_template": "nested include and inherit+module_directory routes; string path, LF documents without tail; look-alike layouts without tail: string path, and file path for the LF column-1 ones; blank-region variants only there",
         "richtraceback_and_text_error_template": "string and file paths (all four thorough)",
         "programs": [
             {"weights": [0, 1, 2], "node_kinds": 13, "faults": "all"},
@@ -66,8 +67,8 @@ BOUNDS = {
     "thorough": {
         "layouts": "72 + 54 with a line-break look-alike (FF VT FS GS RS NEL LS PS lone-CR) in the preceding text",
         "tails": 3,
-        "paths": 4,
-        "html_error_template": "all paths, all documents",
+        "paths": "4 direct + 8 nested routes for every document without tail",
+        "html_error_template": "all direct paths, all documents; nested include and inherit+module_directory routes",
         "programs": [
             {"weights": [0, 1, 2, 3], "node_kinds": 14, "faults": "all"},
             {"weights": [4], "node_kinds": 9, "faults": "core"},
@@ -88,6 +89,15 @@ POOL_TXT = [
 ]
 
 PATHS = ("string", "file", "lookup", "moddir")
+# nested routes: the template with the planted fault is compiled lazily through a TemplateLookup while a healthy
+# template is being rendered, so the traceback passes through the frames of the calling template
+NEST_CALLERS = {
+    "include": "caller one\ncaller two\n<%include file='broken.html'/>\ncaller four\n",
+    "inherit": "<%inherit file='broken.html'/>\ncaller two\n",
+    "namespace": "caller one\n<%namespace name='ns' file='broken.html'/>\ncaller three ${ns.foo()}\n",
+    "definclude": "one\n<%def name='d()'>\n  in def\n  <%include file='broken.html'/>\n</%def>\nsix ${d()}\n",
+}
+NEST_PATHS = tuple("nest:" + r + m for r in NEST_CALLERS for m in ("", ":mod"))
 # the faults planted one weight deeper in space B: one per mechanism that computes a location
 CORE_FAULTS = (
     "expr_ml_line2", "expr_nextline", "filter", "if_cont_line2", "elif", "else", "except", "py_own_line2",
@@ -591,6 +601,20 @@ class _Env:
         self.dir = core.scratch_dir("c11src")
         self.moddir = core.scratch_dir("c11mod")
         self.n = 0
+        # nested routes: fixed healthy callers next to a "broken.html" that is rewritten for every document; one
+        # lookup per mode (the callers stay cached, a template that fails to compile is never cached)
+        from mako.lookup import TemplateLookup
+
+        self.nestdir = core.scratch_dir("c11nest")
+        for name, text in NEST_CALLERS.items():
+            with open(os.path.join(self.nestdir, name + ".html"), "w") as f:
+                f.write(text)
+        self.nestfile = os.path.join(self.nestdir, "broken.html")
+        self.nest_lookup = {
+            "": TemplateLookup(directories=[self.nestdir]),
+            ":mod": TemplateLookup(directories=[self.nestdir], module_directory=core.scratch_dir("c11nestmod")),
+        }
+        self.nestmod = self.nest_lookup[":mod"].template_args["module_directory"]
         self.text_template = exceptions.text_error_template()
         self.html_template = exceptions.html_error_template()
         self.pygments = getattr(exceptions, "pygments_html_formatter", None) is not None
@@ -625,6 +649,9 @@ def execute(text, path, fname, want_html, st, light=False):
             TemplateLookup(directories=[e_.dir]).get_template("/" + os.path.basename(fname))
         elif path == "moddir":
             TemplateLookup(directories=[e_.dir], module_directory=e_.moddir).get_template("/" + os.path.basename(fname))
+        elif path.startswith("nest:"):
+            _n, route, mode = (path + ":").split(":")[:3]
+            e_.nest_lookup[":mod" if mode else ""].get_template("/" + route + ".html").render_unicode()
         else:
             raise AssertionError(path)
     except Exception as e:  # noqa
@@ -640,6 +667,7 @@ def execute(text, path, fname, want_html, st, light=False):
                 rt = exceptions.RichTraceback()
                 st.transitions += 1
                 obs["rt_lineno"], obs["rt_source"] = rt.lineno, rt.source
+                obs["rt_message_ok"] = rt.message == str(e) and rt.error is e
             except Exception as e2:  # noqa
                 obs["rt_error"] = "%s: %s" % (type(e2).__name__, e2)
             try:
@@ -717,6 +745,8 @@ def judge(text, exp, path, fname, obs):
     else:
         if obs["rt_source"] != text:
             out.append(("richtraceback", "source", "RichTraceback.source is not the template text", text, obs["rt_source"]))
+        if not obs.get("rt_message_ok", True):
+            out.append(("richtraceback", "message", "RichTraceback.message / .error is not the compile error", obs.get("msg"), "differs"))
         want_ln = exp["lineno"] if located else obs["lineno"]
         if line_ok and obs["rt_lineno"] != want_ln:
             out.append(("richtraceback", "lineno", "RichTraceback.lineno is not the line of the fault", want_ln, obs["rt_lineno"]))
@@ -759,10 +789,21 @@ def check_doc(text, exp, paths, html_paths, st, kind, outcome_extra=(), light=Fa
         fname = os.path.join(e_.dir, "t%d.html" % e_.n)
         with open(fname, "wb") as f:
             f.write(text.encode("utf-8"))
+    if any(p.startswith("nest:") for p in paths):
+        with open(e_.nestfile, "wb") as f:
+            f.write(text.encode("utf-8"))
+        # a document whose fault only CPython's compiler stage finds leaves a module file behind; with the
+        # same-second mtime it would be taken for the module of the next document (that is C15's subject)
+        for root, _dirs, files in os.walk(e_.nestmod):
+            for name in files:
+                if name.startswith("broken"):
+                    os.unlink(os.path.join(root, name))
     seen = {}
     trivial = exp["lineno"] == 1 and exp["C"] == 1
     light_all = light
+    plain_fname = fname
     for p in paths:
+        fname = e_.nestfile if p.startswith("nest:") else plain_fname
         light = light_all or p in light_paths
         st.states += 1
         st.traces += 1
@@ -800,9 +841,9 @@ def check_doc(text, exp, paths, html_paths, st, kind, outcome_extra=(), light=Fa
                 expected="identical (class, lineno, pos) on all paths",
                 observed={k: list(v) for k, v in seen.items()},
             )
-    if fname:
+    if plain_fname:
         try:
-            os.unlink(fname)
+            os.unlink(plain_fname)
         except OSError:
             pass
 
@@ -882,7 +923,12 @@ def run_a(tier, seed, F, sh, ns, st):
                     html_paths = () if tail != "" else ("string", "file") if layout[1] == "\n" and layout[3] == "col1" else ("string",)
                 else:
                     html_paths = ("string",) if tail == "" and layout[1] == "\n" and not f["variant"] else ()
-                check_doc(text, exp, PATHS, html_paths, st, "A", light_paths=("lookup", "moddir") if quick else ())
+                paths = PATHS
+                if tail == "" and (not quick or (layout[1] == "\n" and layout[3] == "col1" and not special and not f["variant"])):
+                    paths = PATHS + NEST_PATHS
+                    if html_paths:
+                        html_paths = tuple(html_paths) + ("nest:include", "nest:inherit:mod")
+                check_doc(text, exp, paths, html_paths, st, "A", light_paths=("lookup", "moddir") if quick else ())
                 if len(seen) % 499 == 1:
                     st.sample({"space": "A", "fault": f["name"], "layout": list(layout), "text": text, "expect": {"lineno": exp["lineno"], "pos": exp["cols"]}})
     st.extra["A_documents"] = len(seen)
